@@ -1,0 +1,107 @@
+//! Verification hooks. Compiled only with the `verif` cargo feature.
+//!
+//! Everything here is observation only: thread-local counters and logs that
+//! the interpreter bumps at a few call sites so an external harness can tell
+//! which reclamation and pruning events a run actually exercised.
+
+use std::cell::{Cell, RefCell};
+
+thread_local! {
+    static FRAME_RESETS: Cell<u64> = const { Cell::new(0) };
+    static POOL_RETURNS: Cell<u64> = const { Cell::new(0) };
+    static PROMOTIONS: Cell<u64> = const { Cell::new(0) };
+    static SKIPPED_STMTS: Cell<u64> = const { Cell::new(0) };
+    static PRUNED_FUNCTION_DEFS: Cell<u64> = const { Cell::new(0) };
+    static EXECUTED_STMTS: RefCell<Vec<u32>> = const { RefCell::new(Vec::new()) };
+    static SKIPPED_STMT_IDS: RefCell<Vec<u32>> = const { RefCell::new(Vec::new()) };
+    static LOG_STMTS: Cell<bool> = const { Cell::new(false) };
+}
+
+/// Snapshot of the event counters.
+#[derive(Debug, Clone, Copy, Default, PartialEq, Eq)]
+pub struct Counters {
+    pub frame_resets: u64,
+    pub pool_returns: u64,
+    pub promotions: u64,
+    pub skipped_stmts: u64,
+    pub pruned_function_defs: u64,
+}
+
+/// Resets all counters and logs. `log_stmts` turns the per-statement id logs on.
+pub fn reset(log_stmts: bool) {
+    FRAME_RESETS.set(0);
+    POOL_RETURNS.set(0);
+    PROMOTIONS.set(0);
+    SKIPPED_STMTS.set(0);
+    PRUNED_FUNCTION_DEFS.set(0);
+    EXECUTED_STMTS.with_borrow_mut(Vec::clear);
+    SKIPPED_STMT_IDS.with_borrow_mut(Vec::clear);
+    LOG_STMTS.set(log_stmts);
+}
+
+#[must_use]
+pub fn counters() -> Counters {
+    Counters {
+        frame_resets: FRAME_RESETS.get(),
+        pool_returns: POOL_RETURNS.get(),
+        promotions: PROMOTIONS.get(),
+        skipped_stmts: SKIPPED_STMTS.get(),
+        pruned_function_defs: PRUNED_FUNCTION_DEFS.get(),
+    }
+}
+
+/// Statement ids (analysis `StmtId`) executed since the last [`reset`], in order,
+/// with consecutive duplicates removed. Empty unless logging was requested.
+#[must_use]
+pub fn executed_stmts() -> Vec<u32> {
+    EXECUTED_STMTS.with_borrow(Clone::clone)
+}
+
+/// Statement ids skipped by the optimisation plan since the last [`reset`].
+#[must_use]
+pub fn skipped_stmt_ids() -> Vec<u32> {
+    SKIPPED_STMT_IDS.with_borrow(Clone::clone)
+}
+
+#[inline]
+pub(crate) fn on_frame_reset() {
+    FRAME_RESETS.set(FRAME_RESETS.get() + 1);
+}
+
+#[inline]
+pub(crate) fn on_pool_return() {
+    POOL_RETURNS.set(POOL_RETURNS.get() + 1);
+}
+
+#[inline]
+pub(crate) fn on_promotion() {
+    PROMOTIONS.set(PROMOTIONS.get() + 1);
+}
+
+#[inline]
+pub(crate) fn on_pruned_function_def() {
+    PRUNED_FUNCTION_DEFS.set(PRUNED_FUNCTION_DEFS.get() + 1);
+}
+
+#[inline]
+pub(crate) fn on_stmt_skipped(id: Option<u32>) {
+    SKIPPED_STMTS.set(SKIPPED_STMTS.get() + 1);
+    if LOG_STMTS.get()
+        && let Some(id) = id
+    {
+        SKIPPED_STMT_IDS.with_borrow_mut(|log| log.push(id));
+    }
+}
+
+#[inline]
+pub(crate) fn on_stmt_executed(id: Option<u32>) {
+    if LOG_STMTS.get()
+        && let Some(id) = id
+    {
+        EXECUTED_STMTS.with_borrow_mut(|log| {
+            if log.last() != Some(&id) {
+                log.push(id);
+            }
+        });
+    }
+}
